@@ -126,3 +126,20 @@ pub fn only_in_b(args: &[BytecodePrimitive]) -> FFIReturnValue {
     record("only_in_b", args);
     FFIReturnValue::Value(BytecodePrimitive::Int(22))
 }
+
+// Near misses of the name `no_such_symbol`, which the workloads ask for and which must NOT resolve: a loader that
+// "helps" (leading underscore, trailing underscore, another case, a prefix, a version suffix) would find one of these.
+macro_rules! near_miss {
+    ($($name:ident)+) => {
+        $(
+            #[no_mangle]
+            #[allow(non_snake_case)]
+            pub fn $name(args: &[BytecodePrimitive]) -> FFIReturnValue {
+                record(stringify!($name), args);
+                FFIReturnValue::Value(BytecodePrimitive::Int(-1))
+            }
+        )+
+    };
+}
+
+near_miss!(_no_such_symbol no_such_symbol_ No_Such_Symbol NO_SUCH_SYMBOL no_such_symbo no_such_symbol1 no_such_symbol_v1 __no_such_symbol);
